@@ -463,6 +463,56 @@ theorem lookup_topoOf_faceNode (tmpl : Topo) (vs : List Var)
   apply lookup_fold_self
   split <;> split <;> split <;> simp [lookupKey_setKey, h]
 
+/-! ### the start index (`_standardize_connectivity`) -/
+
+/-- every connectivity variable of the conventions has `start_index = 0` -/
+theorem conventions_start_index_zero :
+    Gen.Conv.VAR_START_INDEX.all (fun e => e.2 == 0) = true ∧
+    Gen.Conv.CONNECTIVITY_NAMES.all (fun c => Gen.Conv.VAR_START_INDEX.any (fun e => e.1 == c)) = true := by
+  decide
+
+/-- **an explicit `start_index = 0` leaves EVERY table as it is** — whatever its smallest entry:
+    grids whose node 0 is no face's corner, face-face tables in which face 0 is nobody's
+    neighbour, edge tables … -/
+theorem standardize_zero (t : Table) : standardize (some 0) t = t := by
+  unfold standardize shiftTable
+  simp only
+  conv => rhs; rw [← List.map_id t]
+  apply List.map_congr_left
+  intro r _
+  conv => rhs; rw [id, ← List.map_id r]
+  apply List.map_congr_left
+  intro x _
+  by_cases h : x = FILL
+  · simp [h]
+  · simp [h]
+
+/-- without the attribute the smallest real entry is taken for the start index: a table that does
+    not use index 0 is shifted (why the attribute must be honoured when it is there) -/
+theorem standardize_absent_shifts :
+    standardize none [[1, 2, 3, FILL], [1, 3, 4, 5]] = [[0, 1, 2, FILL], [0, 2, 3, 4]] := by decide
+
+/-- a reader that tests the truth value of the attribute treats the explicit `0` the encoder
+    writes as "absent" and shifts such a table; on tables that use index 0 the two agree, which is
+    why only grids with an unused first node / an isolated first face show it -/
+theorem falsy_start_index_shifts :
+    standardizeFalsy (some 0) [[1, 2, 3, FILL], [1, 3, 4, 5]] ≠ [[1, 2, 3, FILL], [1, 3, 4, 5]] ∧
+    standardizeFalsy (some 0) [[0, 1, 2, FILL], [1, 3, 4, 5]] = [[0, 1, 2, FILL], [1, 3, 4, 5]] := by
+  decide
+
+theorem find_fnc {P} (cfg : Cfg) (d : Ds P) :
+    (exportVars cfg d.vars).find? (fun v => v.name == "face_node_connectivity") = some fncVar := by
+  have h : d.vars.find? (fun v => v.name == "face_node_connectivity") = some fncVar := by
+    unfold Ds.vars
+    cases d.lonlat <;> simp [lonlatVars, fncVar, List.find?_cons]
+  unfold exportVars
+  split
+  · rw [List.find?_append, h]; rfl
+  · exact h
+
+/-- the exported `face_node_connectivity` carries `start_index = 0`, stripped or not -/
+theorem startOf_fnc : startOf fncVar = some 0 ∧ startOf fncVar.strip = some 0 := by decide
+
 /-- **ugrid_rt.**  Whatever else is in the grid's dataset, the reader accepts the export and finds
     the same face-node table and the same node coordinates, in the same order. -/
 theorem ugrid_rt {P} (cfg : Cfg) (tmpl : Topo) (d : Ds P) (ht : TemplateOK tmpl)
@@ -484,8 +534,16 @@ theorem ugrid_rt {P} (cfg : Cfg) (tmpl : Topo) (d : Ds P) (ht : TemplateOK tmpl)
   simp only
   rw [lookup_topoOf_nodeCoords, ht.nodeCoords, lookup_topoOf_faceNode _ _ ht.faceNode]
   split
-  · rw [hnames _ (varNames_strip _)]; simp
-  · rw [hnames _ rfl]; simp
+  · rw [hnames _ (varNames_strip _)]
+    have hf : (List.map Var.strip (exportVars cfg d.vars)).find? (fun v => v.name == "face_node_connectivity")
+        = some fncVar.strip := by
+      rw [List.find?_map]
+      have : ((fun v : Var => v.name == "face_node_connectivity") ∘ Var.strip)
+          = (fun v => v.name == "face_node_connectivity") := by funext v; rfl
+      rw [this, find_fnc]; rfl
+    simp [hf, startOf_fnc.2, standardize_zero]
+  · rw [hnames _ rfl]
+    simp [find_fnc, startOf_fnc.1, standardize_zero]
 
 /-- **serialisable** (repair `C07-ugrid-export-attrs`): with attribute stripping, the export can
     be written whatever attributes of whatever kind the grid's variables carry -/
